@@ -159,3 +159,25 @@ def judge_parse(case, ans, I=None):
     if got != want:
         return True, 'parsed as %s, grammar prescribes %s' % (got[:150], want[:150])
     return False, 'agrees'
+
+
+FOCUS = {
+    'if-then-else': ['If', 'Then', 'Else', 'Var', 'And', 'Not', 'True'],
+    'quantifiers': ['Exists', 'Forall', 'Var', 'Comma', 'Hash', 'And', 'Not'],
+    'counting': ['OpenSquare', 'CloseSquare', 'Var', 'Comma', 'Eq', 'ImpliesInv', 'Lt', 'Countable', 'And'],
+    'fixed points': ['LFP', 'GFP', 'Var', 'Hash', 'Or', 'Not', 'Exists'],
+    'parentheses and negation': ['OpenParen', 'CloseParen', 'Var', 'And', 'Implies', 'Not', 'False'],
+    'operators': ['Var', 'And', 'Or', 'Xor', 'Nor', 'Nand', 'Implies', 'ImpliesInv', 'Iff', 'Not', 'OpenParen', 'CloseParen'],
+    'mixed binders': ['If', 'Then', 'Else', 'Exists', 'Hash', 'LFP', 'Var', 'And', 'Comma'],
+}
+
+
+def parser_jobs(quick):
+    jobs = []
+    Lmax = 6 if quick else 8
+    for L in range(0, Lmax + 1):
+        jobs.append(('parse_formula on %d symbolic tokens (full alphabet)' % L, unit_parser, (L, 2, dict(timeout=250 if quick else 3000))))
+    for name, kinds in FOCUS.items():
+        for L in ((8, 9) if quick else (8, 9, 10, 11)):
+            jobs.append(('parse_formula on %d symbolic tokens (%s: %d kinds)' % (L, name, len(kinds)), unit_parser, (L, 2, dict(kinds=kinds, timeout=250 if quick else 3000))))
+    return jobs, Lmax
